@@ -19,6 +19,7 @@ import (
 func (process *Process) SpawnThenTransition(re *RuntimeEnvironment) {
 	// Increment ProcessCount atomically
 	atomic.AddUint64(&re.processCount, 1)
+	verifSpawn(process)
 
 	if re.UseMonitor {
 		// notify monitor about new process
@@ -38,6 +39,7 @@ func (process *Process) transitionLoop(re *RuntimeEnvironment) {
 	// To slow down the execution speed
 	time.Sleep(re.Delay)
 
+	verifGate(process, re)
 	process.Body.Transition(process, re)
 }
 
@@ -58,6 +60,7 @@ func TransitionBySending(process *Process, toChan chan Message, continuationFunc
 		case <-re.ctx.Done():
 			return
 		default:
+			verifSend(process, toChan, sendingMessage)
 			toChan <- sendingMessage
 			continuationFunc()
 		}
@@ -78,6 +81,7 @@ func TransitionByReceiving(process *Process, clientChan chan Message, processMes
 			// Received cancellation request, then stop
 			return
 		case receivedMessage := <-clientChan:
+			verifRecv(process, clientChan, receivedMessage)
 			// Blocks until a message arrives (may be a FWD request)
 
 			// Process acting as a client by consuming a message from some channel
@@ -642,6 +646,7 @@ func (f *ForwardForm) Transition(process *Process, re *RuntimeEnvironment) {
 		// ACTIVE
 
 		message := Message{Rule: FWD, Providers: process.Providers}
+		verifSend(process, f.from_c.Channel, message)
 		f.from_c.Channel <- message
 		re.logProcessf(LOGRULE, process, "[forward, client] sent FWD request to client %s\n", f.from_c.String())
 
@@ -655,6 +660,7 @@ func (f *ForwardForm) Transition(process *Process, re *RuntimeEnvironment) {
 
 		// Blocks until it received a message
 		message := <-f.from_c.Channel
+		verifRecv(process, f.from_c.Channel, message)
 		re.logProcessf(LOGRULE, process, "[forward, +ve] received message on %s. Will become a %s \n", f.from_c.String(), RuleString[message.Rule])
 
 		// todo: maybe instead of recreating each process, what I can do is check how many providers the
@@ -703,6 +709,7 @@ func (f *ForwardForm) Transition(process *Process, re *RuntimeEnvironment) {
 		// ACTIVE
 
 		message := Message{Rule: GC}
+		verifSend(process, f.from_c.Channel, message)
 		f.from_c.Channel <- message
 		re.logProcessf(LOGRULE, process, "[droppable forward, client] sent GC request to client %s\n", f.from_c.String())
 
@@ -714,6 +721,7 @@ func (f *ForwardForm) Transition(process *Process, re *RuntimeEnvironment) {
 
 		// Blocks until it received a message. Then this message will be dropped
 		message := <-f.from_c.Channel
+		verifRecv(process, f.from_c.Channel, message)
 		re.logProcessf(LOGRULE, process, "[droppable forward, +ve] received message on %s [%s]. This message will be dropped \n", f.from_c.String(), RuleString[message.Rule])
 
 		// Need to handle any clients (aka free names) that will be dropped as a result,
@@ -990,6 +998,7 @@ func (f *PrintForm) Transition(process *Process, re *RuntimeEnvironment) {
 	printRule := func() {
 		if !re.Quiet {
 			fmt.Printf("> %s\n", f.label.String())
+			verifPrint(process, f.label.String())
 		}
 
 		process.finishedRule(PRINT, "[print]", "", re)
@@ -1012,6 +1021,7 @@ func (f *PrintForm) Transition(process *Process, re *RuntimeEnvironment) {
 //	->  terminateBeforeRename/21
 //	->  renamed/1
 func (process *Process) finishedRule(rule Rule, prefix, suffix string, re *RuntimeEnvironment) {
+	verifRule(process, rule)
 	re.logProcessf(LOGRULE, process, "%s finished %s rule %s\n", prefix, RuleString[rule], suffix)
 
 	re.heartbeat <- struct{}{}
@@ -1032,6 +1042,7 @@ func (process *Process) processRenamed(re *RuntimeEnvironment) {
 
 // Process will terminate
 func (process *Process) terminate(re *RuntimeEnvironment) {
+	verifEnd(process, "terminate")
 	re.logProcess(LOGRULEDETAILS, process, "process terminated successfully")
 
 	// Send heartbeat
@@ -1048,6 +1059,7 @@ func (process *Process) terminate(re *RuntimeEnvironment) {
 
 // A forward process will terminate, but its providers will be used by other processes being forwarded
 func (process *Process) terminateForward(re *RuntimeEnvironment) {
+	verifEnd(process, "forward")
 	re.logProcess(LOGRULEDETAILS, process, "process will change by forwarding its provider")
 
 	// Send heartbeat
@@ -1094,6 +1106,7 @@ func (process *Process) terminateBeforeRename(oldProviders, newProviders []Name,
 }
 
 func (process *Process) renamed(oldProviders, newProviders []Name, re *RuntimeEnvironment) {
+	verifEnd(process, "renamed")
 	re.logProcessf(LOGRULEDETAILS, process, "process renamed from %s to %s\n", NamesToString(oldProviders), NamesToString(newProviders))
 
 	// Send heartbeat
